@@ -294,7 +294,16 @@ def discharge(mod, pid, cfg, o, A, B, timeout_ms, seed, path):
         pass
     else:
         res = None
-        if o.method == 'sweep':
+        if o.replayable and orec['size'] > 40:
+            genv, how = prove.guided_cex(goal, AA, B.sampler(seed + 1), defined=not o.meta.get('no_definedness', False))
+            if genv is not None:
+                res = prove.Result('cex', env=genv, note='model proposed by simulation, ' + (
+                    'decided sat by z3 with pinned inputs' if how == 'z3-pinned' else
+                    'z3 pinned evaluation timed out (nested algebraic numbers): reported only if the replay reproduces it'))
+                orec['guided'] = how
+        if res is not None:
+            pass
+        elif o.method == 'sweep':
             roots, log = prove.sweep([goal], AA, B.sampler(seed), timeout_ms=min(to, 5000), hints=[L(h) for h in o.hints],
                                      budget_s=to / 1000.0 * 3)
             orec['sweep'] = log
@@ -314,6 +323,12 @@ def discharge(mod, pid, cfg, o, A, B, timeout_ms, seed, path):
         known = load_known()
         excl = []
         rounds = 0
+        if res.verdict == 'cex' and orec.get('guided') == 'float-proposal':
+            rep = replay_subprocess(pid, cfg, res.env, o.name, None)
+            if rep.get('status') not in ('reproduced', 'reproduced-other'):
+                orec['guided'] = 'float-proposal-not-reproduced'
+                res = prove.valid(goal, AA, to, defined=not o.meta.get('no_definedness', False))
+                orec['verdict'] = res.verdict
         while res.verdict == 'cex':
             orec['env'] = _jsonable_env(res.env)
             if not o.replayable:
@@ -456,7 +471,7 @@ def nice_model(goal, assume, B, timeout_ms):
     for n in names:
         s.add(z3.IsInt(z3.Real('nice!' + n)))
     s.add(z3.Not(g))
-    r = s.check()
+    r = prove._check(s, min(timeout_ms, 20000))
     if r == z3.sat:
         return prove.Result('cex', env=prove.model_to_env(s.model(), names))
     return None
